@@ -61,12 +61,22 @@ func C03MarkerLayout() {
 	// as a setup file for the end-to-end replay): the header needs 40 bytes, "type Convergen
 	// interface " 25 bytes before A's brace, "// :convergen\ntype B interface " 31 bytes before B's,
 	// a comment is followed by a line break.
-	const header, typeText, typeTextB = 40, 25, 31
+	const typeText, typeTextB = 25, 31
+	header := token.Pos(40)
+	file := &ast.File{Name: &ast.Ident{Name: "p"}}
+	// optionally the go:generate directive is the package clause's doc comment (directly above
+	// `package`): a group that directive removal empties completely
+	var directive *ast.CommentGroup
+	if vrt.Bool("generateIsPackageDoc") {
+		directive = &ast.CommentGroup{List: []*ast.Comment{{Slash: 23, Text: "//go:generate x"}}}
+		file.Doc = directive
+		file.Comments = append(file.Comments, directive)
+		header += 16
+	}
 	la, ra := posVar("A.lbrace"), posVar("A.rbrace")
 	vrt.Assume(la < ra && header+typeText <= la)
 	methodA := vrt.Bool("A.hasMethod")
 	declA := intfDecl("A", la, ra, methodA)
-	file := &ast.File{Name: &ast.Ident{Name: "p"}}
 	var original []*ast.Comment
 	add := func(g *ast.CommentGroup) {
 		file.Comments = append(file.Comments, g)
@@ -133,14 +143,23 @@ func C03MarkerLayout() {
 	var kept []*ast.Comment
 	markerAt := map[string][]token.Pos{}
 	var prev token.Pos
-	for gi, g := range file.Comments {
+	// a comment group emptied by directive removal has no position: it must not stay attached
+	vrt.Assert("no-emptied-doc-attached", file.Doc == nil || len(file.Doc.List) > 0)
+	first := true
+	for _, g := range file.Comments {
+		if g == directive {
+			// (go/printer skips an emptied group left in the list; only its lines must be gone)
+			vrt.Assert("directive-lines-removed", len(g.List) == 0)
+			continue
+		}
 		vrt.Assert("no-empty-group", len(g.List) > 0)
 		if len(g.List) == 0 {
 			continue
 		}
-		if gi > 0 {
+		if !first {
 			vrt.Assert("groups-in-position-order", prev < g.List[0].Slash)
 		}
+		first = false
 		prev = g.List[0].Slash
 		for _, c := range g.List {
 			if len(c.Text) == 21 && c.Text[:6] == "MARKER" {
